@@ -559,6 +559,9 @@ func checkC01(w *World, r *Report) {
 	ruleDef(m, r)
 	ruleBody(m, r)
 	ruleBinds(w, r, e)
+	r.rule("C01.no-mutation", "evaluation never writes into a form or into a value it was given: the evaluator, the binder and the builtins write only into storage allocated in the same activation, and storage handed to a call inside a loop is not written again on the next iteration (a literal evaluated twice, or the rest list of an earlier call, would otherwise change; shared with C02.write)")
+	nmu := ruleContainerWrites(w, r, e, "C01.no-mutation", func(fn *ssa.Function) bool { return runtimePkg(fnPkgPath(fn)) }, false)
+	r.floor("C01.no-mutation", "container write sites in the library", nmu, 40)
 	r.Assumptions = append(r.Assumptions, "values computed by builtins, exact error messages and error positions are not decided; any semantic change that keeps all of these shapes (for instance + implemented as -) is invisible to this check")
 }
 
